@@ -530,7 +530,11 @@ pub fn run_history(h: &History, focus: &[&str], ctx: &Ctx, st: &mut Stats, drain
         let findings = match guard(|| sim.step(op)) {
             Guard::Ok(f) => f,
             Guard::LibPanic(m) => {
-                return Err(format!("[C03] step {} {}: client panicked: {}", i, op_name(op), m));
+                if focus.contains(&"C03") {
+                    return Err(format!("[C03] step {} {}: client panicked: {}", i, op_name(op), m));
+                }
+                st.class("client-panicked-outside-focus:C03");
+                return Ok(None);
             }
             Guard::HarnessPanic(m) => return Err(format!("HARNESS-{}", m)),
         };
@@ -541,7 +545,13 @@ pub fn run_history(h: &History, focus: &[&str], ctx: &Ctx, st: &mut Stats, drain
     if drain {
         let findings = match guard(|| sim.drain(&h.lates)) {
             Guard::Ok(f) => f,
-            Guard::LibPanic(m) => return Err(format!("[C03] drain: client panicked: {}", m)),
+            Guard::LibPanic(m) => {
+                if focus.contains(&"C03") {
+                    return Err(format!("[C03] drain: client panicked: {}", m));
+                }
+                st.class("client-panicked-outside-focus:C03");
+                return Ok(None);
+            }
             Guard::HarnessPanic(m) => return Err(format!("HARNESS-{}", m)),
         };
         if !judge(findings, h.ops.len(), "drain", st)? {
